@@ -113,7 +113,9 @@ class C12(Check):
             "(3) find_EventDataset on constructed ASTs with 0, 1, 2 dataset nodes in every position (two different "
             "datasets, the same dataset twice, roots written as text without a dataset object); (4) streams not "
             "rooted in a dataset object: the override is used exactly once, no override is rejected")
-    assumptions = ["the executor suspends on a gate the scheduler resolves; no event loop is involved in (2)",
+    assumptions = ["the executor suspends on a gate the scheduler resolves; no event loop is involved in (2): value_async is assumed to "
+                   "await nothing but the executor (a library that blocked on an asyncio primitive of its own would need a running loop)",
+                   "bursts: N = 5..7 calls all in flight before the first completes, every completion order (N! x 3 outcome patterns)",
                    "value() (make_sync: event loop in a worker thread) is one atomic operation in (1)"]
     level_text = ("explicit-state model checking of the implementation (histories) plus exhaustive schedule "
                   "enumeration of concurrent value_async calls, reference model = executor call list")
@@ -128,6 +130,9 @@ class C12(Check):
                Space("schedules", {"concurrent_calls": "N<=3" if Q else "N<=4", "datasets": 2,
                                    "completions": "result or exception"},
                      [("sched", n) for n in ((1, 2, 3) if Q else (1, 2, 3, 4))], runner="run_sched"),
+               Space("bursts", {"concurrent_calls": "N = 5, 6" if Q else "N = 5, 6, 7", "datasets": 2,
+                                "schedules": "all N started before any completes, then every completion order x {all results, all exceptions, alternating}"},
+                     [("burst", n) for n in ((5, 6) if Q else (5, 6, 7))], runner="run_sched"),
                Space("rootless streams", {"bases": "a name, a text-decoded dataset call, a text-decoded query", "derivations": 5,
                                            "calls": "value(executor=override[, title]) and value()"}, [("rootless", 0)], runner="run_rootless"),
                Space("roots", {"asts": "0, 1, 2 EventDataset nodes at chain root / lambda body / argument"},
@@ -149,10 +154,11 @@ class C12(Check):
     def run_sched(self, payload):
         from func_adl import EventDataset
 
-        _, N = payload
+        mode, N = payload
         res = {"n": 0, "nt": [], "oc": [], "tags": {}, "viol": [], "states": set(), "trans": 0}
-        specs = [(0, "Select", "lambda e: e.x"), (1, "Select", "lambda e: e.y"), (0, "Where", "lambda e: e.z > 1"),
-                 (1, "MD0", None)][:N]
+        base = [(0, "Select", "lambda e: e.x"), (1, "Select", "lambda e: e.y"), (0, "Where", "lambda e: e.z > 1"),
+                (1, "MD0", None)]
+        specs = [(base[i % 4][0], base[i % 4][1], (base[i % 4][2] or "").replace("e.", f"e.k{i // 4}") or None) for i in range(N)]
 
         def make():
             log = []
@@ -208,7 +214,26 @@ class C12(Check):
             if bad:
                 res["viol"].append({"kind": bad[0], "canon": f"N={N}|{schedule!r}", "msg": bad[1]})
 
-        n = sched.all_schedules(make, done)
+        if mode == "burst":
+            # many calls in flight at once: all N started (in order) before any completes, then EVERY completion order,
+            # with all results / all exceptions / alternating
+            import itertools
+
+            starts = [("start", i) for i in range(N)]
+            obs, enabled, log, want, finished = sched.run_schedule(make, starts)
+            n = 0
+            if any(o[0] != "started" for o in obs) or len(log) != N:
+                done(tuple(starts), obs, log, want, finished)
+                n = 1
+            else:
+                for perm in itertools.permutations(range(N)):
+                    for pat in ("ok", "err", "alt"):
+                        sc = starts + [(("ok" if (pat == "ok" or (pat == "alt" and k % 2 == 0)) else "err"), i) for k, i in enumerate(perm)]
+                        obs, enabled, log, want, finished = sched.run_schedule(make, sc)
+                        done(tuple(sc), obs, log, want, finished)
+                        n += 1
+        else:
+            n = sched.all_schedules(make, done)
         # determinism: the first schedule replayed twice must give identical observations
         for k, obs in first.items():
             o2 = sched.run_schedule(make, eval(k))[0]
